@@ -456,7 +456,9 @@ def check_merge(ctx, spec, reqs, pending, fock=False):
             before = list(self.curr_seq)
             n0 = len(calls)
             r = super().merge_a_gaussian_op(registers)
-            steps.append((before, list(self.curr_seq), bool(r), calls[n0:]))
+            dag = getattr(self, "new_DAG", None) if r else None
+            steps.append((before, list(self.curr_seq), bool(r), calls[n0:],
+                          None if dag is None else (list(dag.nodes), list(dag.edges))))
             return r
 
     prog, cmds = gc.build(spec)
@@ -488,7 +490,7 @@ def check_merge(ctx, spec, reqs, pending, fock=False):
         ctx.fail("merge:result-not-last-step", "compiled circuit is not the command list after the last merge step", rp)
         return
     ok = True
-    for before, after, merged, cl in steps:
+    for before, after, merged, cl, dag in steps:
         if not merged:
             if [cid(c) for c in before] != [cid(c) for c in after]:
                 ctx.fail("merge:changed-without-merge", "a step that reports no merge changed the circuit", rp)
@@ -534,6 +536,20 @@ def check_merge(ctx, spec, reqs, pending, fock=False):
                 why = "making the merged commands adjacent is not a legal reordering of the circuit: " + w1
             elif w2:
                 why = "emitted block is interleaved with a command it does not commute with: " + w2
+        if why is None and dag is not None and len(dag[0]) == len(after):
+            # the order must not be left to the topological sort: commands sharing a mode have to be connected
+            import networkx as nx
+            G = nx.DiGraph()
+            G.add_nodes_from(cid(c) for c in dag[0])
+            G.add_edges_from((cid(a), cid(b)) for a, b in dag[1])
+            reach = {v: nx.descendants(G, v) for v in G.nodes}
+            for x, y in itertools.combinations(a_ids, 2):
+                if wires[x] & wires[y] and y not in reach.get(x, ()) and x not in reach.get(y, ()):
+                    segs = []
+                    why = (f"interleaved: the graph after the merge does not order {keep[x]} and {keep[y]} although they share a mode "
+                           "(their order is left to the topological sort)")
+                    break
+            ctx.tally("merge:dag-checked")
         if why is None:
             # numeric meaning of the block
             mops = [gc.cmd_to_op(keep[i]) for i in m_ids]
